@@ -26,7 +26,7 @@ Definition mset (m : mem) (a v : N) : mem :=
   mkmem (PositiveMap.add (N.succ_pos a) v (m_map m)) (m_dflt m).
 
 (* the initial content the harness puts everywhere: a position dependent pattern *)
-Definition pat (seed a : N) : N := (a * 37 + (a / 256) * 11 + seed) mod 256.
+Definition pat (seed a : N) : N := N.land (a * 37 + N.shiftr a 8 * 11 + seed) 255.   (* = (a*37 + (a/256)*11 + seed) mod 256 *)
 Definition mem_init (seed : N) : mem := mkmem (PositiveMap.empty N) (pat seed).
 
 Fixpoint read_range_nat (m : mem) (a : N) (n : nat) : list N :=
@@ -569,11 +569,12 @@ Definition obs_eqb (a b : obs) : bool :=
   && (o_avail2 a =? o_avail2 b) && (o_cons2 a =? o_cons2 b).
 (* The generated case files do not spell data out byte by byte (Coq parses long literals slowly):
    data written by the harness comes from the generator [gd] (same formula in props/transport_lib.py) and
-   data observed on the implementation is compared through length + a polynomial hash. *)
-Definition gd (s n : N) : list N :=
-  map (fun i => (N.of_nat i * 151 + (N.of_nat i / 256) * 7 + s * 13 + 5) mod 256) (seq 0 (N.to_nat n)).
+   data observed on the implementation is compared through length + a polynomial hash (mod 2^61). *)
+Fixpoint gd_from (s i : N) (n : nat) : list N :=       (* byte i = (i*151 + (i/256)*7 + s*13 + 5) mod 256 *)
+  match n with O => [] | S k => N.land (i * 151 + N.shiftr i 8 * 7 + s * 13 + 5) 255 :: gd_from s (i + 1) k end.
+Definition gd (s n : N) : list N := gd_from s 0 (N.to_nat n).
 Definition HP : N := 2305843009213693951.
-Definition hashN (l : list N) : N := fold_left (fun acc b => (acc * 257 + b + 1) mod HP) l 0.
+Definition hashN (l : list N) : N := fold_left (fun acc b => N.land (acc * 257 + b + 1) HP) l 0.   (* HP = 2^61-1 used as a mask *)
 Inductive hres := HOk (n len h : N) | HErr (c : N) | HPanic.
 Record hobs := mkhobs { h_res : hres; h_avail : N; h_cons : N; h_avail2 : N; h_cons2 : N }.
 Definition res_heqb (a : res) (b : hres) : bool :=
